@@ -181,6 +181,9 @@ func cmdRun(args []string) int {
 			if v, ok := e.Opts["timeout_ms"]; ok {
 				ex.timeout, _ = strconv.Atoi(v)
 			}
+			if v := os.Getenv("VX_FIRST_MS"); v != "" {
+				ex.timeout, _ = strconv.Atoi(v)
+			}
 			if v, ok := e.Opts["budget_s"]; ok {
 				n, _ := strconv.Atoi(v)
 				budget = time.Duration(n) * time.Second
